@@ -382,8 +382,16 @@ fn l_observe<Ix: IndexType>(g: &List<i32, Ix>, rows: &[Vec<(usize, i32)>], handl
     }
     let refs: Vec<(usize, usize, i32)> = g.edge_references().map(|e| (e.source().index(), e.target().index(), *e.weight())).collect();
     ck!(refs == exp_refs, "list-edge_references", "{at}: edge_references() = {refs:?}, expected {exp_refs:?}");
-    let idx: Vec<(usize, usize)> = g.edge_indices().filter_map(|e| g.edge_endpoints(e)).map(|(x, y)| (x.index(), y.index())).collect();
-    ck!(idx == exp_refs.iter().map(|e| (e.0, e.1)).collect::<Vec<_>>(), "list-edge_indices", "{at}: edge_indices()");
+    let all_idx: Vec<LEdge<Ix>> = g.edge_indices().take(m + n + 4).collect();
+    ck!(all_idx.len() == m, "list-edge_indices", "{at}: edge_indices() yields {} indices for {m} edges", all_idx.len());
+    let mut idx: Vec<(usize, usize)> = Vec::new();
+    for e in &all_idx {
+        match g.edge_endpoints(*e) {
+            Some((x, y)) => idx.push((x.index(), y.index())),
+            None => return fail("C05/list-edge_indices", format!("{at}: edge_indices() yields {e:?}, which is not an edge")),
+        }
+    }
+    ck!(idx == exp_refs.iter().map(|e| (e.0, e.1)).collect::<Vec<_>>(), "list-edge_indices", "{at}: edge_indices() endpoints {idx:?}");
     // every edge index ever returned stays valid with the same endpoints
     for (h, a, b) in handles {
         ck!(g.edge_endpoints(*h).map(|(x, y)| (x.index(), y.index())) == Some((*a, *b)), "list-handle-invalidated", "{at}: edge index {h:?} returned earlier for {a}->{b} now has endpoints {:?}", g.edge_endpoints(*h));
